@@ -23,6 +23,7 @@
 package main
 
 import (
+	"bytes"
 	"encoding/json"
 	"flag"
 	"math/big"
@@ -32,6 +33,7 @@ import (
 	"os"
 	"path/filepath"
 	"reflect"
+	"runtime"
 	"syscall"
 
 	"com.tuntun.rangers/node/src/storage/rlp"
@@ -366,6 +368,7 @@ func encodeAfter(badName string, bad reflect.Value, name string, v reflect.Value
 	}
 	ev["ok"] = true
 	ev["enc"] = codecutil.Ints(enc)
+	ev["alt"] = altEncodings(name, ptr)
 	back := reflect.New(t)
 	var derr error
 	p, _ = codecutil.Try(func() { derr = rlp.DecodeBytes(enc, back.Interface()) })
@@ -376,6 +379,172 @@ func encodeAfter(badName string, bad reflect.Value, name string, v reflect.Value
 	}
 	ev["back"] = bk
 	return [2]map[string]interface{}{fail, ev}
+}
+
+// altEncodings: the same value through the other entry points and shapes of use: passed by value
+// (not addressable), inside an interface{} slice, through Encode(io.Writer) and EncodeToReader.
+// Each entry: {"n": name, "ok": bool, "panic": bool, "b": bytes}; "wrap" says the value sits in a
+// one-element list.
+func altEncodings(name string, ptr reflect.Value) []interface{} {
+	out := make([]interface{}, 0, 4)
+	run := func(n string, f func() ([]byte, error)) {
+		var b []byte
+		var err error
+		p, _ := codecutil.Try(func() { b, err = f() })
+		e := map[string]interface{}{"n": n, "ok": !p && err == nil, "panic": p, "b": []int{}}
+		if !p && err == nil {
+			e["b"] = codecutil.Ints(b)
+		}
+		out = append(out, e)
+	}
+	t := ptr.Type().Elem()
+	nilPtr := t.Kind() == reflect.Ptr && ptr.Elem().IsNil()
+	if t.Kind() != reflect.Interface && !noByValue[name] && !nilPtr {
+		v := ptr.Elem().Interface()
+		run("byvalue", func() ([]byte, error) { return rlp.EncodeToBytes(v) })
+		run("iniface", func() ([]byte, error) { return rlp.EncodeToBytes([]interface{}{v}) })
+	}
+	run("writer", func() ([]byte, error) {
+		var buf bytes.Buffer
+		err := rlp.Encode(&buf, ptr.Interface())
+		return buf.Bytes(), err
+	})
+	run("reader", func() ([]byte, error) {
+		_, r, err := rlp.EncodeToReader(ptr.Interface())
+		if err != nil {
+			return nil, err
+		}
+		return io.ReadAll(r)
+	})
+	return out
+}
+
+// concurrent: K goroutines encode (by pointer, by value, in an interface) and decode DIFFERENT
+// values of the SAME type at the same time, sharing the codec's cached type information.  The
+// sequential events of each value are emitted first; of the concurrent rounds only those whose
+// result differs from the sequential one (or that panicked) are emitted - as ordinary Encode
+// events, judged by the monitor against the reference like any other.
+func concurrent(tr *vutil.Trace, name string, vals []reflect.Value, rounds int) (emitted, ran int) {
+	k := len(vals)
+	seq := make([]map[string]interface{}, k)
+	seqKey := make([]string, k)
+	key := func(ev map[string]interface{}) string {
+		b, _ := json.Marshal([]interface{}{ev["ok"], ev["panic"], ev["enc"], ev["alt"], ev["back"]})
+		return string(b)
+	}
+	for i, v := range vals {
+		seq[i] = encodeAfter("", reflect.Value{}, name, v, "conc-seq")[1]
+		seqKey[i] = key(seq[i])
+		tr.Emit(seq[i])
+		emitted++
+	}
+	// the sequential results each goroutine compares with
+	type ref struct {
+		ptr               reflect.Value
+		val               interface{}
+		byval             bool
+		enc, encV, encIf  []byte
+		backKey           string
+	}
+	refs := make([]ref, k)
+	t := catalogue[name]
+	for i, v := range vals {
+		r := ref{ptr: reflect.New(t)}
+		r.ptr.Elem().Set(v)
+		nilPtr := t.Kind() == reflect.Ptr && r.ptr.Elem().IsNil()
+		r.byval = t.Kind() != reflect.Interface && !noByValue[name] && !nilPtr
+		if ok, _ := seq[i]["ok"].(bool); !ok {
+			return // nothing to compare with (the sequential encode already failed and was emitted)
+		}
+		r.enc = codecutil.FromInts(seq[i]["enc"].([]int))
+		if r.byval {
+			r.val = r.ptr.Elem().Interface()
+			for _, a := range seq[i]["alt"].([]interface{}) {
+				m := a.(map[string]interface{})
+				if ok, _ := m["ok"].(bool); ok {
+					switch m["n"] {
+					case "byvalue":
+						r.encV = codecutil.FromInts(m["b"].([]int))
+					case "iniface":
+						r.encIf = codecutil.FromInts(m["b"].([]int))
+					}
+				}
+			}
+		}
+		bk, _ := json.Marshal(seq[i]["back"])
+		r.backKey = string(bk)
+		refs[i] = r
+	}
+	type res struct {
+		i  int
+		ev map[string]interface{}
+		n  int
+	}
+	for r := 0; r < rounds; r++ {
+		ch := make(chan res, k)
+		start := make(chan struct{})
+		for i := range vals {
+			go func(i int) {
+				rf := refs[i]
+				var bad map[string]interface{}
+				n := 0
+				<-start
+				p, msg := codecutil.Try(func() {
+					for it := 0; it < 150 && bad == nil; it++ {
+						n++
+						b1, e1 := rlp.EncodeToBytes(rf.ptr.Interface())
+						var b2, b3 []byte
+						var e2, e3 error
+						if rf.byval {
+							b2, e2 = rlp.EncodeToBytes(rf.val)
+							b3, e3 = rlp.EncodeToBytes([]interface{}{rf.val})
+						}
+						same := e1 == nil && bytes.Equal(b1, rf.enc) &&
+							(!rf.byval || rf.encV == nil || (e2 == nil && bytes.Equal(b2, rf.encV))) &&
+							(!rf.byval || rf.encIf == nil || (e3 == nil && bytes.Equal(b3, rf.encIf)))
+						if same && it%16 == 0 {
+							// decoding at the same time as the others
+							back := reflect.New(t)
+							derr := rlp.DecodeBytes(rf.enc, back.Interface())
+							bk := map[string]interface{}{"ok": derr == nil, "panic": false, "val": errForm()}
+							if derr == nil {
+								bk["val"] = formOf(back.Elem())
+							}
+							if j, _ := json.Marshal(bk); string(j) != rf.backKey {
+								bad = map[string]interface{}{"event": "Encode", "src": "conc", "t": name, "val": seq[i]["val"], "ok": true,
+									"panic": false, "enc": seq[i]["enc"], "alt": []interface{}{}, "back": bk}
+							}
+							continue
+						}
+						if !same {
+							alt := []interface{}{}
+							if rf.byval {
+								alt = append(alt, map[string]interface{}{"n": "byvalue", "ok": e2 == nil, "panic": false, "b": codecutil.Ints(b2)},
+									map[string]interface{}{"n": "iniface", "ok": e3 == nil, "panic": false, "b": codecutil.Ints(b3)})
+							}
+							bad = map[string]interface{}{"event": "Encode", "src": "conc", "t": name, "val": seq[i]["val"], "ok": e1 == nil,
+								"panic": false, "enc": codecutil.Ints(b1), "alt": alt, "back": seq[i]["back"]}
+						}
+					}
+				})
+				if p {
+					bad = map[string]interface{}{"event": "Encode", "src": "conc", "t": name, "val": seq[i]["val"], "ok": false,
+						"panic": true, "msg": msg, "enc": []int{}, "back": seq[i]["back"]}
+				}
+				ch <- res{i, bad, n}
+			}(i)
+		}
+		close(start)
+		for j := 0; j < k; j++ {
+			x := <-ch
+			ran += x.n
+			if x.ev != nil && emitted < 4000 {
+				tr.Emit(x.ev)
+				emitted++
+			}
+		}
+	}
+	return
 }
 
 // badValue: a value of a container type with a negative big integer inside, after
@@ -464,6 +633,7 @@ func main() {
 	nRandom := flag.Int("random", 0, "number of seeded random values (each also yields mutated encodings)")
 	salt := flag.Int64("salt", 0, "extra seed salt (shard number)")
 	curPath := flag.String("current", "", "side file naming the input being decoded")
+	concRounds := flag.Int("conc", 0, "concurrency family: rounds per type (K goroutines each)")
 	flag.Parse()
 	// a decoder that trusts a declared size must not take the machine down with it
 	syscall.Setrlimit(syscall.RLIMIT_AS, &syscall.Rlimit{Cur: 8 << 30, Max: 8 << 30})
@@ -555,6 +725,31 @@ func main() {
 		tr.Emit(decodeEvent(mutate(rng, seed), "random-mutation"))
 		nDec++
 	}
+	// concurrency family: the values of the TLC enc cases of this shard, grouped by type, plus
+	// seeded random ones; once with all cores, once with GOMAXPROCS=1
+	concRan, concEmitted := 0, 0
+	if *concRounds > 0 {
+		byType := map[string][]reflect.Value{}
+		for _, c := range cases {
+			if c.Op == "enc" && len(byType[c.T]) < 8 {
+				byType[c.T] = append(byType[c.T], build(catalogue[c.T], c.V))
+			}
+		}
+		for _, name := range typeNames {
+			for len(byType[name]) < 8 {
+				byType[name] = append(byType[name], randValue(rng, catalogue[name], 0, ""))
+			}
+			for _, procs := range []int{runtime.NumCPU(), 1} {
+				old := runtime.GOMAXPROCS(procs)
+				e, r := concurrent(tr, name, byType[name], *concRounds)
+				runtime.GOMAXPROCS(old)
+				concEmitted += e
+				concRan += r
+				nEnc += e
+			}
+		}
+	}
 	tr.Close()
-	fmt.Printf("c08: decode_events=%d encode_events=%d fail_events=%d events=%d types=%d\n", nDec, nEnc, nFail, tr.N, len(typeNames))
+	fmt.Printf("c08: conc_encodes=%d conc_events=%d ", concRan, concEmitted)
+	fmt.Printf("decode_events=%d encode_events=%d fail_events=%d events=%d types=%d\n", nDec, nEnc, nFail, tr.N, len(typeNames))
 }
